@@ -203,6 +203,42 @@ pub mod text {
   }
 }
 
+/// Process-wide overrides of the chain's activation heights, so that the code paths that depend
+/// on a non-zero first inscription height (header-only fetching below it, input values fetched
+/// from the node) can be exercised on short regtest chains. `None` restores the chain's values.
+pub mod overrides {
+  use std::sync::atomic::{AtomicU64, Ordering};
+
+  const UNSET: u64 = u64::MAX;
+
+  static FIRST_INSCRIPTION_HEIGHT: AtomicU64 = AtomicU64::new(UNSET);
+  static FIRST_RUNE_HEIGHT: AtomicU64 = AtomicU64::new(UNSET);
+
+  fn load(cell: &AtomicU64) -> Option<u32> {
+    u32::try_from(cell.load(Ordering::SeqCst)).ok()
+  }
+
+  fn store(cell: &AtomicU64, height: Option<u32>) {
+    cell.store(height.map(u64::from).unwrap_or(UNSET), Ordering::SeqCst);
+  }
+
+  pub fn set_first_inscription_height(height: Option<u32>) {
+    store(&FIRST_INSCRIPTION_HEIGHT, height);
+  }
+
+  pub fn set_first_rune_height(height: Option<u32>) {
+    store(&FIRST_RUNE_HEIGHT, height);
+  }
+
+  pub fn first_inscription_height() -> Option<u32> {
+    load(&FIRST_INSCRIPTION_HEIGHT)
+  }
+
+  pub fn first_rune_height() -> Option<u32> {
+    load(&FIRST_RUNE_HEIGHT)
+  }
+}
+
 /// Named points on the indexing path (`updater.rs`, `reorg.rs`). Each call is recorded in
 /// `TRACE` when tracing is on; when a point is armed (`arm(name, occurrence)`) its
 /// `occurrence`-th hit panics, simulating the death of the indexing process at that point
